@@ -17,7 +17,7 @@ theorem pcOf_filter_ne (pcs : List (Tid Ã— Pc Ï Î¿ Îµ)) (t t' : Tid) (h : t' â‰
     by_cases hu : u = t
     Â· subst hu
       have hne : Â¬ (u = t') := fun e => h e.symm
-      simp [List.filter_cons, pcOf, ih, hne]
+      simp [pcOf, ih, hne]
     Â· have : (u != t) = true := by simp [hu]
       simp only [List.filter_cons, this, if_true, pcOf]
       split
